@@ -37,6 +37,8 @@ bool SceneGen::boxFree(const RectB &c, int ignore) {
     for (auto &kv : shapes) if (kv.second.alive && kv.first != ignore && rectsOverlap(c, kv.second.box, gap - 1e-9)) return false;
     for (auto &kv : conns) if (kv.second.alive) for (int k = 0; k < 2; k++) if (kv.second.freeEnd[k]) {
         Pt p = kv.second.e[k];
+        // allowCover: a (rectangular) shape may be dragged over a free end point, which then lies well inside it
+        if (allowCover && p.x >= c.x + 5 && p.x <= c.x + c.w - 5 && p.y >= c.y + 5 && p.y <= c.y + c.h - 5) continue;
         if (p.x >= c.x - endMargin && p.x <= c.x + c.w + endMargin && p.y >= c.y - endMargin && p.y <= c.y + c.h + endMargin) return false;
     }
     for (auto &kv : junctions) if (kv.second.alive) {
@@ -123,6 +125,11 @@ bool SceneGen::moveShape(Json &ops) {
         int id = r.pick(ids);
         double dx = 5 * (double)r.range(-12, 12), dy = 5 * (double)r.range(-12, 12);
         if (r.chance(0.15)) { dx = 0; if (r.chance(0.5)) dy = 0; }
+        if (allowCover && r.chance(0.4)) {
+            // drag the shape's centre onto (or next to) some free end point
+            std::vector<Pt> eps; for (auto &kv : conns) if (kv.second.alive) for (int k = 0; k < 2; k++) if (kv.second.freeEnd[k]) eps.push_back(kv.second.e[k]);
+            if (!eps.empty()) { Pt e = r.pick(eps); const RectB &b = shapes[id].box; dx = 5 * std::round((e.x - (b.x + b.w / 2)) / 5) + 5 * (double)r.range(-1, 1); dy = 5 * std::round((e.y - (b.y + b.h / 2)) / 5) + 5 * (double)r.range(-1, 1); }
+        }
         RectB c = shapes[id].box; c.x += dx; c.y += dy;
         if (!boxFree(c, id)) continue;
         // checkpoints must stay in free space as well
@@ -218,7 +225,7 @@ Json genRouterSession(Rng &r, const RouterGenCfg &g) {
 
     SceneGen sg(r);
     sg.gap = g.gap; sg.endMargin = g.endMargin; sg.polygons = g.polygons; sg.touching = g.touching; sg.dirRestrict = g.dirRestrict; sg.checkpoints = g.checkpoints;
-    sg.pinHook = g.pinHook; sg.endHook = g.endHook; sg.allowDeleteAttached = g.allowDeleteAttached;
+    sg.pinHook = g.pinHook; sg.endHook = g.endHook; sg.allowDeleteAttached = g.allowDeleteAttached; sg.allowCover = g.allowCover;
     Json ops = Json::arr();
     int ns = r.range(g.minShapes, g.maxShapes), nc = r.range(g.minConns, g.maxConns);
     for (int i = 0; i < ns; i++) sg.addShape(ops);
